@@ -64,7 +64,8 @@ class lock:
 
 def make(target=None, timeout=3000):
     with lock():
-        if not os.path.exists(os.path.join(env.COQ, "Makefile")):
+        from . import coqproject
+        if coqproject.regenerate() or not os.path.exists(os.path.join(env.COQ, "Makefile")):
             subprocess.run(["coq_makefile", "-f", "_CoqProject", "-o", "Makefile"], cwd=env.COQ, check=True,
                            capture_output=True)
         cmd = ["timeout", str(timeout), "make", "-j%d" % env.JOBS]
